@@ -67,6 +67,7 @@ var floatBits = []uint64{
 func isNaNBits(b uint64) bool { return b&0x7ff0000000000000 == 0x7ff0000000000000 && b&0x000fffffffffffff != 0 }
 
 type gen struct {
+	forceInv bool // all leaves of the clause being generated are inverse filters
 	r    *tx.Rng
 	w    *tx.W
 	size int
@@ -159,7 +160,8 @@ func (g *gen) genNew() {
 		j := r.Intn(i + 1)
 		names[i], names[j] = names[j], names[i]
 	}
-	malformed := r.P(1, 12)
+	malformed := r.P(1, 12) || (g.opt["newonly"] != "" && r.P(1, 3))
+	emptyFirst := malformed && r.P(1, 3)
 	data := map[string]types.DataSlice{}
 	toks := []string{"N", tx.Int(fid), ""}
 	enums := map[string][]string{}
@@ -175,6 +177,14 @@ func (g *gen) genNew() {
 		cn := n
 		if malformed && r.P(1, 3) {
 			cn = r.PickInt([]int{0, 1, n + 1, 2})
+		}
+		if emptyFirst {
+			// exactly one column is empty; whether it comes first depends on the column order
+			if c == 0 {
+				cn = 0
+			} else {
+				cn = n
+			}
 		}
 		kind := r.Pick([]string{"I", "I", "F", "F", "B", "S", "S", "T", "EN", "EN", "CI", "CF", "CB", "CS"})
 		if malformed && r.P(1, 6) {
@@ -629,7 +639,7 @@ func (g *gen) genLeaf(f *hframe, bad bool) clause {
 		return clause{qframe.Filter{Column: "nosuch", Comparator: "=", Arg: 1},
 			[]string{"F", "0", tx.HexS("nosuch"), "s" + tx.HexS("="), tx.CInt(1)}}
 	}
-	inv := r.P(1, 5)
+	inv := r.P(1, 3) || g.forceInv
 	fl := filter.Filter{Column: col.name, Inverse: inv}
 	toks := []string{"F", tx.Bool01(inv), tx.HexS(col.name)}
 	setCmp := func(c string) { fl.Comparator = c; toks = append(toks, "s"+tx.HexS(c)) }
@@ -736,7 +746,7 @@ func (g *gen) genLeaf(f *hframe, bad bool) clause {
 		switch col.typ {
 		case "i":
 			setCmp("in")
-			k := r.Intn(4)
+			k := r.Intn(6)
 			vs := make([]int, k)
 			toks = append(toks, "il", tx.Int(k))
 			for i := range vs {
@@ -746,7 +756,7 @@ func (g *gen) genLeaf(f *hframe, bad bool) clause {
 			fl.Arg = vs
 		case "s", "e":
 			setCmp("in")
-			k := r.Intn(4)
+			k := r.Intn(6)
 			vs := make([]string, k)
 			toks = append(toks, "sl", tx.Int(k))
 			for i := range vs {
@@ -839,7 +849,7 @@ func (g *gen) genClause(f *hframe, depth int, bad bool) clause {
 	}
 	switch {
 	case k < 6 || k == 9:
-		n := 1 + r.Intn(3)
+		n := 1 + r.Intn(4)
 		if bad && r.P(1, 5) {
 			n = 0
 		}
@@ -1181,11 +1191,18 @@ func (g *gen) genExpr(f *hframe, depth int, typ string, bad bool) exprT {
 	leaf := func() exprT {
 		if len(cols) > 0 && r.P(2, 3) {
 			c := cols[r.Intn(len(cols))]
+			if r.P(1, 4) {
+				// the same column reference as an Expression value (qframe.Val)
+				return exprT{qframe.Val(types.ColumnName(c.name)), []string{"C", tx.HexS(c.name)}}
+			}
 			return exprT{types.ColumnName(c.name), []string{"C", tx.HexS(c.name)}}
 		}
 		switch typ {
 		case "i":
 			v := g.genInt()
+			if r.P(1, 4) {
+				return exprT{qframe.Val(v), []string{"V", tx.CInt(v)}}
+			}
 			return exprT{v, []string{"V", tx.CInt(v)}}
 		case "f":
 			b := g.genFloatBits()
@@ -1251,6 +1268,13 @@ func (g *gen) genExpr(f *hframe, depth int, typ string, bad bool) exprT {
 		toks = append(toks, a.toks...)
 	}
 	return exprT{qframe.Expr(op, args...), toks}
+}
+
+// overCtx additionally replaces a built-in: int "+" becomes x + y + 1000.
+func overCtx() *eval.Context {
+	ctx := myCtx()
+	_ = ctx.SetFunc("+", func(x, y int) int { return x + y + 1000 })
+	return ctx
 }
 
 func myCtx() *eval.Context {
@@ -1409,7 +1433,31 @@ func (g *gen) genOp() {
 	op := ops[r.Intn(len(ops))]
 	switch op {
 	case "filter":
-		c := g.genClause(src, 3, bad)
+		g.forceInv = r.P(1, 8)
+		var c clause
+		if r.P(1, 5) && !bad {
+			// a flat OR / AND group of leaves (the filters of one OR group share a mask in the implementation)
+			n := 2 + r.Intn(3)
+			subs := make([]qframe.FilterClause, n)
+			name := r.Pick([]string{"OR", "OR", "AND"})
+			toks := []string{name, tx.Int(n)}
+			for i := range subs {
+				l := g.genLeaf(src, false)
+				subs[i] = l.c
+				toks = append(toks, l.toks...)
+			}
+			if name == "OR" {
+				c = clause{qframe.Or(subs...), toks}
+			} else {
+				c = clause{qframe.And(subs...), toks}
+			}
+			if r.P(1, 4) {
+				c = clause{qframe.Not(c.c), append([]string{"NOT"}, c.toks...)}
+			}
+		} else {
+			c = g.genClause(src, 3, bad)
+		}
+		g.forceInv = false
 		g.w.Line(append(append(head, "filter"), c.toks...)...)
 		g.finish(fid, func() qframe.QFrame { return src.qf.Filter(c.c) })
 	case "sort":
@@ -1494,13 +1542,20 @@ func (g *gen) genOp() {
 		if bad && r.P(1, 4) {
 			dst = r.Pick(illegalNames)
 		}
-		g.w.Line(append(append(head, "eval", tx.HexS(dst)), e.toks...)...)
+		ctxKind := r.Pick([]string{"m", "m", "d", "o"})
+		g.w.Line(append(append(head, "eval", tx.HexS(dst), ctxKind), e.toks...)...)
 		g.finish(fid, func() qframe.QFrame {
 			var ex qframe.Expression
 			if x, ok := e.e.(qframe.Expression); ok {
 				ex = x
 			} else {
 				ex = qframe.Val(e.e)
+			}
+			switch ctxKind {
+			case "d":
+				return src.qf.Eval(dst, ex)
+			case "o":
+				return src.qf.Eval(dst, ex, eval.EvalContext(overCtx()))
 			}
 			return src.qf.Eval(dst, ex, eval.EvalContext(myCtx()))
 		})
@@ -1580,6 +1635,12 @@ func (g *gen) equals(a, b *hframe) {
 
 func histSection(r *tx.Rng, w *tx.W, size int, opt map[string]string) {
 	g := &gen{r: r, w: w, size: size, opt: opt}
+	if opt["newonly"] != "" {
+		for i := 0; i < 12; i++ {
+			g.genNew()
+		}
+		return
+	}
 	g.genNew()
 	if r.P(1, 3) {
 		g.genNew()
